@@ -44,14 +44,28 @@ pub fn bases() -> Vec<Base> {
             // a header-length field below 5 is read as 5 words by the analyzers (20 fixed header bytes)
             let ihl = ihl_field.max(5);
             for eth in [false, true] {
-                for (flags, payload, opts) in [(SYN, vec![], vec![2u8, 4, 5, 0xb4]), (ACK | PSH, b"GET / HTTP/1.1\r\nHost: x\r\n\r\n".to_vec(), vec![])] {
-                    let ip = pkt::build(&Spec { v6, ip_opt_words: if v6 { 0 } else { (ihl - 5) as u8 }, flags, ack: if flags & ACK != 0 { 9 } else { 0 }, payload, opts, src: 7, dst: 9, sport: 41234, dport: 8080, ..Spec::default() });
-                    let mut ip = ip;
-                    if !v6 {
-                        ip[0] = 0x40 | ihl_field as u8;
+                // endpoints: distinct addresses and ports; the SAME address at both ends (loopback / hairpin traffic); the same
+                // port at both ends; the lower address with the higher port (the plain header length only)
+                let endpoints: &[(u8, u8, u16, u16, &str)] = if ihl_field == 5 { &[(7, 9, 41234, 8080, ""), (7, 7, 41234, 8080, "-same-address"), (7, 9, 8080, 8080, "-same-port"), (9, 7, 80, 41234, "-reversed-order")] } else { &[(7, 9, 41234, 8080, "")] };
+                for &(src, dst, sport, dport, tag) in endpoints {
+                    for (flags, payload, opts) in [(SYN, vec![], vec![2u8, 4, 5, 0xb4]), (ACK | PSH, b"GET / HTTP/1.1\r\nHost: x\r\n\r\n".to_vec(), vec![])] {
+                        let ip = pkt::build(&Spec { v6, ip_opt_words: if v6 { 0 } else { (ihl - 5) as u8 }, flags, ack: if flags & ACK != 0 { 9 } else { 0 }, payload, opts, src, dst, sport, dport, ..Spec::default() });
+                        let mut ip = ip;
+                        if !v6 {
+                            ip[0] = 0x40 | ihl_field as u8;
+                        }
+                        let frame = if eth { pkt::frame(Link::Ethernet, &ip) } else { ip };
+                        if eth && ihl_field == 5 && tag.is_empty() {
+                            // MAC addresses that read like the start of a raw IPv4 / IPv6 header: only the order in which the
+                            // framings are tried tells the frame apart from a raw-IP one
+                            for (mname, macs) in [("macs-like-ipv4-header", [0x45u8, 0, 0, 0x28, 0, 0, 0x40, 0, 0x40, 0x06, 0, 0]), ("macs-like-ipv6-header", [0x60, 0, 0, 0, 0, 0x14, 0x06, 0x40, 0x20, 0x01, 0, 0])] {
+                                let mut f = frame.clone();
+                                f[..12].copy_from_slice(&macs);
+                                v.push(Base { name: format!("{}-ihl5-eth-{mname}-{}", if v6 { "v6" } else { "v4" }, if flags == SYN { "syn" } else { "data" }), frame: f, ip: 14, v6, ihl });
+                            }
+                        }
+                        v.push(Base { name: format!("{}-ihl{}-{}-{}{tag}", if v6 { "v6" } else { "v4" }, ihl_field, if eth { "eth" } else { "raw" }, if flags == SYN { "syn" } else { "data" }), frame, ip: if eth { 14 } else { 0 }, v6, ihl });
                     }
-                    let frame = if eth { pkt::frame(Link::Ethernet, &ip) } else { ip };
-                    v.push(Base { name: format!("{}-ihl{}-{}-{}", if v6 { "v6" } else { "v4" }, ihl_field, if eth { "eth" } else { "raw" }, if flags == SYN { "syn" } else { "data" }), frame, ip: if eth { 14 } else { 0 }, v6, ihl });
                 }
             }
         }
